@@ -704,7 +704,7 @@ func c02EndedContext(push bool) *Scenario {
 						}
 						return nil
 					})
-					base, cancel := context.WithCancel(context.Background())
+					base, cancel := cancelCauseCtx()
 					defer cancel()
 					srv := jrpc2.NewServer(asg, &jrpc2.ServerOptions{Concurrency: 1, AllowPush: push, NewContext: func() context.Context { return base }})
 					srv.Start(lib)
